@@ -74,6 +74,12 @@ C02Scalars ==
     \cup {EnumIntS(vs, u) : vs \in { <<1, 2>>, <<0>>, <<>>, <<IMax, IMin>>, <<-1, 3>> }, u \in UnitOpts}
     \cup {EnumStrS(vs, t) : vs \in { <<"a", "b">>, <<"1", "#empty">>, <<>>, <<"true", "1.000000", "NaN">> }, t \in BOOLEAN}
 
+\* amounts around 2^63 / 2^64 as unit strings of every built-in unit set, with and without bounds
+BigUnitSchemas ==
+    UNION { { IntS(None, None, Some(u)), IntS(None, Some(3), Some(u)), IntS(Some(1), None, Some(u)), IntS(Some(IMin), Some(IMax), Some(u)),
+              FloatS(None, None, Some(u)), FloatS(None, Some(6), Some(u)), EnumIntS(<<1, 2>>, Some(u)), EnumIntS(<<IMax>>, Some(u)) } : u \in UnitIds }
+BigRaw == {Str(t) : t \in G("g_big") \cup {"1", "#empty", "a"}} \cup {I64(1), I64(IMax)}
+
 \* native values of a scalar schema's type (for Validate / Serialize)
 ScalarNatives(s) ==
     CASE s.kind \in {"int", "enum_int"} -> {I64(n) : n \in {x \in IntPts : FitsI64(x)}}
@@ -540,6 +546,7 @@ Vec(s, op, x) ==
     [fam |-> "schema", s |-> s, op |-> op, arg |-> x, exp |-> Declared(s, op, x), mod |-> Outcome(s, op, x), sub |-> Sub(s, op, x)]
 
 InitC02 ==
+    \/ \E s \in BigUnitSchemas : \E x \in BigRaw : vec = Vec(s, "unser", x)
     \/ \E s \in C02Scalars :
           \/ \E x \in ScalarRaw(s) : vec = Vec(s, "unser", x)
           \/ s.kind = "any" /\ \E x \in AnyRaw : vec = Vec(s, "unser", x)
